@@ -4,7 +4,7 @@
                      guards on its channel operations and with the effects of
                      those operations on the pipeline;
       thread 1       the emitter goroutine started by NewWriterLevel
-                     (for qw := range bg.queue { if !writeOK(bg, <-qw.flush) { break } });
+                     (for qw := range bg.queue { writeOK(bg, <-qw.flush) }: it keeps draining after a failure);
       thread 2+i     the goroutine `go c.writeBlock()` of the compressor with id i.
     A step of a thread that is blocked (guard false) or has nothing to do
     leaves the state unchanged.
@@ -42,9 +42,9 @@ Record comp := {
 Inductive epc :=
 | ERange       (* for qw := range bg.queue *)
 | EFlushWait   (* <-qw.flush *)
-| EWrite       (* writeOK up to and including io.Copy *)
-| EDone        (* writeOK after io.Copy: qwg.Done(), error check, c.next = 0, deferred bg.waiting <- c *)
-| EExit.       (* loop left: wg.Done() *)
+| EWrite       (* writeOK body: error checks, io.Copy, setErr, c.next = 0 *)
+| EDone        (* writeOK's deferred calls: qwg.Done(), then bg.waiting <- c *)
+| EExit.       (* queue closed and drained: loop left, wg.Done() *)
 
 Record cst := {
   x_api : sst;
@@ -54,7 +54,7 @@ Record cst := {
   x_waiting : list comp;
   x_held : option comp;
   x_epc : epc;
-  x_wfail : bool;            (* the io.Copy of the held compressor failed *)
+  x_wfail : bool;            (* unused since the emitter no longer breaks on failure; always false *)
   x_qwg : Z;
   x_out : list (list Z);
   x_nwr : Z;                 (* underlying Write calls so far *)
@@ -203,42 +203,44 @@ Section Conc.
         | None => st
         end
     | EWrite =>
+        (* writeOK up to the deferred calls:
+             if c.err != nil { bg.setErr(c.err); return false }
+             if bg.Error() != nil { c.buf.Reset(); return false }
+             if c.buf.Len() == 0 { return true }
+             _, err := io.Copy(bg.w, &c.buf); if err != nil { bg.setErr(err); return false }
+             c.next = 0; return true *)
         match x_held st with
         | None => st
         | Some c =>
             match c_err c with
-            | Some e =>   (* bg.setErr(c.err); return false; deferred bg.waiting <- c; break *)
-                if zlen (x_waiting st) <? x_cap st then
-                  upd_emit st (x_queue st) (x_waiting st ++ [with_stage c SIdle]) None EExit false
-                           (x_qwg st) (x_out st) (x_nwr st) (set_err (x_err st) e) (x_panic st)
-                else st
+            | Some e =>
+                upd_emit st (x_queue st) (x_waiting st) (Some c) EDone false
+                         (x_qwg st) (x_out st) (x_nwr st) (set_err (x_err st) e) (x_panic st)
             | None =>
-                if isnil (c_buf c) then   (* return true without qwg.Done() *)
-                  if zlen (x_waiting st) <? x_cap st then
-                    upd_emit st (x_queue st) (x_waiting st ++ [with_stage c SIdle]) None ERange false
-                             (x_qwg st) (x_out st) (x_nwr st) (x_err st) (x_panic st)
-                  else st
-                else
-                  let bad := fault (x_nwr st) in
+                if is_some (x_err st) then
                   upd_emit st (x_queue st) (x_waiting st)
-                           (Some (if bad then c else
-                                    {| c_id := c_id c; c_block := c_block c; c_buf := []; c_stage := c_stage c; c_err := c_err c |}))
-                           EDone bad (x_qwg st)
-                           (if bad then x_out st else x_out st ++ [c_buf c]) (x_nwr st + 1) (x_err st) (x_panic st)
+                           (Some {| c_id := c_id c; c_block := c_block c; c_buf := []; c_stage := c_stage c; c_err := c_err c |})
+                           EDone false (x_qwg st) (x_out st) (x_nwr st) (x_err st) (x_panic st)
+                else if isnil (c_buf c) then
+                  upd_emit st (x_queue st) (x_waiting st) (Some c) EDone false
+                           (x_qwg st) (x_out st) (x_nwr st) (x_err st) (x_panic st)
+                else if fault (x_nwr st) then
+                  upd_emit st (x_queue st) (x_waiting st) (Some c) EDone false
+                           (x_qwg st) (x_out st) (x_nwr st + 1) (set_err (x_err st) 9) (x_panic st)
+                else
+                  upd_emit st (x_queue st) (x_waiting st)
+                           (Some {| c_id := c_id c; c_block := []; c_buf := []; c_stage := c_stage c; c_err := c_err c |})
+                           EDone false (x_qwg st) (x_out st ++ [c_buf c]) (x_nwr st + 1) (x_err st) (x_panic st)
             end
         end
     | EDone =>
+        (* deferred: bg.qwg.Done(); then bg.waiting <- c; back to the range loop *)
         match x_held st with
         | None => st
         | Some c =>
             if zlen (x_waiting st) <? x_cap st then
-              let panic := x_panic st || (x_qwg st <=? 0) in
-              if x_wfail st then
-                upd_emit st (x_queue st) (x_waiting st ++ [with_stage c SIdle]) None EExit false
-                         (x_qwg st - 1) (x_out st) (x_nwr st) (set_err (x_err st) 9) panic
-              else
-                upd_emit st (x_queue st) (x_waiting st ++ [with_stage (with_block c []) SIdle]) None ERange false
-                         (x_qwg st - 1) (x_out st) (x_nwr st) (x_err st) panic
+              upd_emit st (x_queue st) (x_waiting st ++ [with_stage c SIdle]) None ERange false
+                       (x_qwg st - 1) (x_out st) (x_nwr st) (x_err st) (x_panic st || (x_qwg st <=? 0))
             else st
         end
     | EExit => st
